@@ -172,6 +172,22 @@ fn token_bytes(ctx: &Ctx, r: &Value, rng: &mut Rng) -> Vec<u8> {
         }
         "foreign" => ctx.foreign_token.clone(),
         "empty" => vec![],
+        // a token anybody can compute OFFLINE from public data, the way this implementation computes tokens (CRC32C over the
+        // presenter's IP and a 20-byte secret) but with a secret that is no secret: twenty equal bytes (zero-initialised /
+        // memset state), nothing at all, the presenter's address again
+        "offline" => {
+            let v = t["v"].as_u64().unwrap_or(0);
+            let ip = from_addr(r).ip().octets();
+            let mut data = ip.to_vec();
+            match v {
+                0..=255 => data.extend_from_slice(&[v as u8; 20]),
+                256 => {}
+                257 => data.extend_from_slice(&from_addr(r).port().to_be_bytes()),
+                258 => data.extend_from_slice(&ip),
+                _ => data = vec![0u8; 20],
+            }
+            crypto::crc32c(&data).to_be_bytes().to_vec()
+        }
         _ => rng.bytes(4),
     }
 }
@@ -584,6 +600,17 @@ pub fn random_behaviour(id: u64, rng: &mut Rng, focus: &str, len: usize) -> Valu
     let mvals = ["w1", "w2", "w3", "wmax", "wbig"];
     let ivals = ["v1", "v2", "vmax", "vbig"];
     let hashes = ["h1", "h2", "h3"];
+    // a freshly started server (no rotation yet, nothing issued yet): writes that are valid but for an offline-computable token
+    if focus == "C15" && rng.chance(1, 2) {
+        for v in [0u64, 255, 256] {
+            let from = json!({"ip": pick(rng, &["a", "b"]), "port": 1001});
+            steps.push(match rng.below(3) {
+                0 => json!({"kind":"putimm","from":from,"tok":{"kind":"offline","v":v},"t":["i","v1"],"val":"v1","vlen":0,"hashok":true}),
+                1 => json!({"kind":"announce","from":from,"tok":{"kind":"offline","v":v},"t":"h1","nid":"n1","port":7,"implied":false}),
+                _ => json!({"kind":"putmut","from":from,"tok":{"kind":"offline","v":v},"k":"k1","tk":"k1","salt":"","slen":0,"seq":1,"cas":-1,"val":"w1","vlen":0,"sigok":true}),
+            });
+        }
+    }
     for _ in 0..len {
         let i = steps.len();
         let nf = if rng.chance(3, 4) { 2 } else { 4 };
@@ -597,7 +624,13 @@ pub fn random_behaviour(id: u64, rng: &mut Rng, focus: &str, len: usize) -> Valu
                 json!({"kind":"issued","step":s})
             }
         } else {
-            json!({"kind": pick(rng, &["none", "empty", "foreign", "garbage"])})
+            let k = pick(rng, &["none", "empty", "foreign", "garbage", "offline"]);
+            if k == "offline" {
+                // the all-zero and the all-ones secret half of the time
+                json!({"kind": k, "v": if rng.chance(1, 2) { *rng.pick(&[0u64, 0, 255]) } else { rng.below(260) }})
+            } else {
+                json!({"kind": k})
+            }
         };
         let w = rng.below(100);
         let mut_focus = focus == "C04";
